@@ -281,6 +281,21 @@ def stable_point(tree, vals, dv):
             if va is not None and vb is not None and not isinstance(va, bool) and not isinstance(vb, bool) \
                     and math.isclose(va, vb, rel_tol=1e-7, abs_tol=1e-12):
                 return False
+    # a function evaluated next to a branch point (acos / acosh / asin at 1, where x * (1/x) lands after rounding) turns a
+    # rounding error of 1e-16 in its argument into 1e-8 in its value: such points say nothing about the conversion
+    for sub in subtrees(tree):
+        if sub[0] == 7 and len(sub) == 3:
+            v = try_eval(eval_n, sub[2], vals, dv)
+            if v is None or isinstance(v, bool):
+                continue
+            f0 = try_eval(lambda t, vs, d: _guarded(t, lambda _v: v, lambda i, q, u: 0.0, d), [7, sub[1], [3, 0]], vals, dv)
+            for e_ in (1e-10, -1e-10):
+                x_ = v * (1 + e_) if v != 0 else e_
+                f1 = try_eval(lambda t, vs, d, x_=x_: _guarded(t, lambda _v: x_, lambda i, q, u: 0.0, d), [7, sub[1], [3, 0]], vals, dv)
+                if (f0 is None) != (f1 is None):
+                    return False
+                if f0 is not None and not isinstance(f0, bool) and not math.isclose(f0, f1, rel_tol=1e-7, abs_tol=1e-9):
+                    return False
     for eps in (1e-9, -1e-9):
         def pert(t, vs, d, eps=eps):
             return _guarded(t, lambda v: vs[v] * (1 + eps), lambda i, q, u: qvalue(i, q) * (1 + eps), d)
